@@ -27,7 +27,7 @@ RULE = (
     "distinct = sha1(input, solver config)"
 )
 BOUNDS = {
-    "quick": "m,n<=3 (+ whole-matrix scalings 2^-27, 2^27), ranks 0..min, all compositions x 2 value assignments from {1,1/2,1/4,2^-5,2^-10}, factors monomial/Householder, gamma in {1/2,1}, K=12, stop cells tol in {1e-3,1e-6,1e-9} budget 300",
+    "quick": "m,n<=3 (+ whole-matrix scalings 2^-27, 2^27), ranks 0..min, all compositions x 2 value assignments from {1,1/2,1/4,2^-5,2^-10}, factors monomial/Householder, gamma in {1/2,1}, K=12, stop cells tol in {1e-3,1e-6,1e-9} budget 300; mid-conditioned (cond 2^20) tall/wide/square trajectories K=50 damped / 35 third-order, per-key history budgets",
     "thorough": "m,n<=4, gamma in {1/4,1/2,3/4,1}, K=30, dynamic range 2^20",
 }
 THOROUGH_STREAMS = 3
